@@ -507,3 +507,68 @@ def replay_h_cat_order_flags(o1, o2, same_size):
         return False, "order flags kept"
     finally:
         shutil.rmtree(d, ignore_errors=True)
+
+
+# ------------------------------------------------------------------ multi-index levels filled chunk by chunk ---
+# (a chunk's label list is the sorted set of its values; lists that are a prefix of the first chunk's are left out:
+# their codes coincide with the first chunk's by construction)
+LEVEL_SETS = [["p", "q", "r"], ["p", "r"], ["q", "r"], ["r"], ["p", "q", "r", "s"]]
+
+
+def _second_chunk(i0, i1):
+    import pandas as pd
+    from fastparquet import dataframe
+    df, views = dataframe.empty([np.dtype("int64")], 4, cols=["v"], index_types=[np.dtype("O"), np.dtype("O")],
+                                index_names=["a", "b"])
+    x = views["a-catdef"]
+    x._set_categories(pd.Index(LEVEL_SETS[i0]), fastpath=True)
+    try:
+        x._set_categories(pd.Index(LEVEL_SETS[i1]), fastpath=True)
+    except RuntimeError:
+        return "refused"
+    return "accepted"
+
+
+def h_multiindex_chunk_labels(i0: int, i1: int) -> bool:
+    """
+    pre: 0 <= i0 <= 4 and 0 <= i1 <= 4
+    post: __return__
+    """
+    # an explicit multi-index over plain columns: every chunk's codes count positions in that chunk's own label list,
+    # so a later chunk may be merged into the levels set by the first chunk only if its label list IS that list - any
+    # other list (a subset, a permutation, a superset) has to be refused, or its rows get other rows' labels
+    i0, i1 = _pick_i(i0, 0, 4), _pick_i(i1, 0, 4)
+    try:
+        from crosshair.tracers import NoTracing
+    except ImportError:
+        out = _second_chunk(i0, i1)
+    else:
+        with NoTracing():
+            out = _second_chunk(i0, i1)
+    return out == ("accepted" if LEVEL_SETS[i0] == LEVEL_SETS[i1] else "refused")
+
+
+def replay_h_multiindex_chunk_labels(i0, i1):
+    import shutil, tempfile
+    import pandas as pd
+    import fastparquet
+    d = tempfile.mkdtemp(prefix="c06-")
+    try:
+        fn = os.path.join(d, "t.parq")
+        l0, l1 = LEVEL_SETS[i0], LEVEL_SETS[i1]
+        a = [l0[j % len(l0)] for j in range(len(l0))] + [l1[j % len(l1)] for j in range(len(l1))]
+        df = pd.DataFrame({"a": pd.Series(a, dtype=object), "b": pd.Series(["k"] * len(a), dtype=object),
+                           "v": list(range(len(a)))})
+        fastparquet.write(fn, df, row_group_offsets=[0, len(l0)])
+        pf = fastparquet.ParquetFile(fn)
+        try:
+            out = pf.to_pandas(index=["a", "b"])
+        except RuntimeError:
+            return False, "refused"
+        got = [x[0] for x in out.index]
+        if got != a:
+            return True, "to_pandas(index=['a','b']) over row groups whose 'a' labels are %r and %r returns index " \
+                         "labels %r, the file holds %r" % (l0, l1, got, a)
+        return False, "labels right"
+    finally:
+        shutil.rmtree(d, ignore_errors=True)
